@@ -853,9 +853,14 @@ def _check_module(ck, camp, fail, schema, mod, code, kind, flags, scalar_map, se
                 want_c = c17_fields.canon(f.default_value)
                 have_c = c17_fields.canon(m["default"]) if m["has_default"] else None
                 if have_c != want_c:
-                    return fail("input_default", f"{n}.{fname}: {f.type} = {c17_fields.show_canon(want_c)} in the schema → the member "
-                                + ("has no default" if have_c is None else f"defaults to {c17_fields.show_canon(have_c)}"),
-                                field_type=str(f.type), default_class=c17_fields.value_class(want_c))
+                    observed = (f"{n}.{fname}: {f.type} = {c17_fields.show_canon(want_c)} in the schema → the member "
+                                + ("has no default" if have_c is None else f"defaults to {c17_fields.show_canon(have_c)}"))
+                    if graphql.is_enum_type(graphql.get_named_type(f.type)) and c17_fields.null_elements_dropped(want_c, have_c):
+                        # the null elements of a list-of-enum default are gone and nothing else differs; the other members are still checked
+                        fail("input_default", observed, field_type=str(f.type), default_class=c17_fields.value_class(want_c),
+                             trigger="null_elements_dropped_from_enum_list_default")
+                        continue
+                    return fail("input_default", observed, field_type=str(f.type), default_class=c17_fields.value_class(want_c))
             want = expected(f.type, True)
             have = denote(hints[fname])
             if want[0] == "any":  # what force-optional does to the nullability of a `!` field is not C17's business
@@ -1052,8 +1057,9 @@ def run(ck: Check) -> None:
     ck.c17_obs = []
     me = sys.modules[__name__]
     guard.campaign(ck, c17_fields.campaign_defaults, me, 14 if quick else 120, 30)
-    guard.campaign(ck, c17_fields.campaign_defaults_e2e, me, 30 if quick else 300)
-    guard.campaign(ck, c17_fields.campaign_clash, me, 40 if quick else 400)
+    guard.campaign(ck, c17_fields.campaign_defaults_e2e, me, 30 if quick else 150)
+    guard.campaign(ck, c17_fields.campaign_defaults_static, me, 12 if quick else 120)
+    guard.campaign(ck, c17_fields.campaign_clash, me, 40 if quick else 200)
     guard.campaign(ck, c17_order.campaign_family, me, quick)
     guard.campaign(ck, c17_order.campaign_all_orders, me, quick)
     guard.campaign(ck, campaign_e2e, 150 if quick else 1200, 2)
@@ -1073,7 +1079,9 @@ def replay(ck: Check, path: str) -> int:
     inp = data.get("input") or {}
     camp = ck.campaign("replay")
     ck.findings = []  # a replay shows the failure even when it is a recorded finding
-    if "sdl" in inp:
+    if inp.get("static"):
+        c17_fields.static_case(ck, camp, inp["sdl"], inp["model"], inp.get("flags", {}))
+    elif "sdl" in inp:
         oracle_case(ck, camp, inp["sdl"], inp["model"], inp.get("flags", {}), inp.get("scalar_map", {}), inp.get("seed", 1))
     for f in ck.failures:
         print("REPLAY-FAILS:", json.dumps(f.classification), f.observed[:300])
